@@ -89,6 +89,9 @@ func (m *resourceManager) registerResource(resource *Resource, handler resourceH
 			if err != nil {
 				return nil, err
 			}
+			if content == nil {
+				return nil, fmt.Errorf("resource %s: handler returned no content", resource.URI)
+			}
 			return []ResourceContents{content}, nil
 		},
 	}
